@@ -27,7 +27,7 @@ pub fn checks() -> Vec<Check> {
             assumptions: &["security and muxing are the E2 stubs (the relay protocol runs over SimMuxer substreams negotiated by the real multistream-select)", "clients are scripted (raw frames), so the relay client code is not exercised"],
             real: &["relay::Behaviour + its connection handler (inbound hop, outbound stop, CopyFuture)", "Swarm, connection pool, multistream-select"],
             stub: &["transport/security/muxer -> SimTransport/SimMuxer", "relay clients -> scripted frames", "clock -> virtual"],
-            scenarios: vec![Scenario::new("relay-limits", 300, 30_000, relay_limits)],
+            scenarios: vec![Scenario::new("relay-limits", 300, 30_000, relay_limits), Scenario::new("relay-limits-full-stack", 60, 6_000, relay_limits_full)],
         },
         Check {
             id: "C48",
@@ -80,7 +80,17 @@ struct Client {
 }
 
 fn relay_limits() -> SimResult {
+    run_relay_limits(Stack::Stub)
+}
+
+/// The same workload with the real noise + yamux/mplex stack under every connection.
+fn relay_limits_full() -> SimResult {
+    run_relay_limits(Stack::draw_full())
+}
+
+fn run_relay_limits(stack: Stack) -> SimResult {
     begin();
+    crate::full::reset(false);
     draw_policy();
     net::with_net(|n| n.faults = false);
     let max_res = 1 + choose(6);
@@ -91,7 +101,9 @@ fn relay_limits() -> SimResult {
     let circ_dur = Duration::from_secs(3 + choose(40) as u64);
     let with_rate_limits = choose(3) == 0;
     note_val("limits", (max_res + 8 * max_res_peer + 64 * max_circ + 512 * max_circ_peer) as u64 + 4096 * with_rate_limits as u64);
-    let relay_node = PNode::new(
+    let relay_node = PNode::make(
+        stack,
+        libp2p_identity::Keypair::generate_ed25519(),
         |k| {
             let mut cfg = relay::Config { max_reservations: max_res, max_reservations_per_peer: max_res_peer, reservation_duration: res_dur, max_circuits: max_circ, max_circuits_per_peer: max_circ_peer, max_circuit_duration: circ_dur, max_circuit_bytes: 1 << 20, ..Default::default() };
             if !with_rate_limits {
@@ -119,7 +131,7 @@ fn relay_limits() -> SimResult {
                 }),
             );
             let s2 = shared.clone();
-            let node = PNode::new(move |_| Script::new(s2), &steady_knobs());
+            let node = PNode::make(stack, libp2p_identity::Keypair::generate_ed25519(), move |_| Script::new(s2), &steady_knobs());
             Client { node, shared, conns: vec![] }
         })
         .collect();
@@ -172,9 +184,9 @@ fn relay_limits() -> SimResult {
                 10 => {
                     // fault: a connection dies under the relay (reservations on it and circuits through it must go)
                     if fault("transport_reset", 500) {
-                        let c = net::conn_count();
+                        let c = stack.conn_count();
                         if c > 0 {
-                            net::reset_conn(choose(c));
+                            stack.reset_conn(choose(c));
                         }
                     } else {
                         advance(Duration::from_secs(1));
@@ -256,6 +268,9 @@ fn relay_limits() -> SimResult {
     }
     if accepted > 0 && denied > 0 {
         mark_nontrivial();
+    }
+    if stack != Stack::Stub && accepted > 0 {
+        probe("full-stack-request-accepted");
     }
     Ok(())
 }
